@@ -53,6 +53,7 @@ class Ncp:
         self.native = False  # version confirmed: native format only
         self.buf = b""
         self.last_data = None
+        self.unacked = None
 
     def receive(self, data: bytes):
         self.buf += data
@@ -80,6 +81,11 @@ class Ncp:
         if f is None:
             self._send(ashlib.spec_wire("N", ack=self.rx_seq))
             return
+        ua = getattr(self, "unacked", None)
+        if ua is not None and f[0] in ("D", "A", "N"):
+            acknum = f[3] if f[0] == "D" else f[-1] if f[0] in ("A", "N") else None
+            if acknum == (ua[0] + 1) % 8:
+                self.unacked = None
         if f[0] == "R":
             self.reset_link()
             if self.boot_delay and self.defer is not None:
@@ -87,6 +93,10 @@ class Ncp:
                 self.boot_gen += 1
                 self.defer(self.boot_delay, lambda g=self.boot_gen: self._booted(g))
                 return
+            if getattr(self, "drop_tx_after_reset", 0):
+                # the line loses the first frames the NCP sends after its RSTACK (its retransmissions, marked reTx, recover them)
+                self.drop_tx_pending = self.drop_tx_after_reset
+                self.drop_tx_after_reset = 0
             if getattr(self, "drop_rx_after_reset", 0):
                 # the line loses the next frames the host sends after the handshake (its retransmissions recover them)
                 self.drop_next_rx = self.drop_rx_after_reset
@@ -94,6 +104,9 @@ class Ncp:
             k = ashlib.spec_wire("K", code=self.reset_code)
             # (a line that duplicates a frame delivers both copies back to back: one read carries two RSTACKs)
             self._send(k + k if getattr(self, "dup_rstack", False) else k)
+            if getattr(self, "drop_tx_pending", 0):
+                self.drop_next_tx = self.drop_tx_pending
+                self.drop_tx_pending = 0
             return
         if self.booting:
             return
@@ -106,10 +119,16 @@ class Ncp:
                     self._send(ashlib.spec_wire("A", ack=self.rx_seq))
                 else:
                     self.last_data = resp
+                    self.unacked = (self.tx_seq, resp)
                     self._send(ashlib.spec_wire("D", frm=self.tx_seq, ack=self.rx_seq, payload=resp))
                     self.tx_seq = (self.tx_seq + 1) % 8
             elif retx:
                 self._send(ashlib.spec_wire("A", ack=self.rx_seq))
+                # the host repeats its request: the answer never reached it (or its acknowledgement got lost).  A real NCP
+                # retransmits its unacknowledged DATA frame on its own timer, marked reTx; this one does it here
+                ua = getattr(self, "unacked", None)
+                if ua is not None and getattr(self, "retransmit_unacked", True):
+                    self._send(ashlib.spec_wire("D", frm=ua[0], retx=1, ack=self.rx_seq, payload=ua[1]))
             else:
                 self._send(ashlib.spec_wire("N", ack=self.rx_seq))
         # ACK / NAK from the host: window of one, nothing to do in this simulator
